@@ -1,7 +1,7 @@
 (** Correspondence check for C09, evaluated by [vm_compute] on the cases the Go
     harness wrote (what the real proxies delivered next to the scripts that produced it). *)
 From Coq Require Import List NArith Bool.
-From Fabio Require Import Lib.Outcome Lib.Bytes Lib.Verdict Model.ClientHello Model.BufioR Model.Tunnel Model.WsHijack.
+From Fabio Require Import Lib.Outcome Lib.Bytes Lib.Verdict Model.ClientHello Model.BufioR Model.Tunnel Model.WsHijack Model.ConnDeadline.
 Import ListNotations.
 Local Open Scope N_scope.
 Local Open Scope outcome_scope.
@@ -47,7 +47,16 @@ Inductive case :=
    model is evaluated for both. *)
 | CWsEarly (req : str) (rsplit : N) (stream : str) (segs : list N) (nearly : N) (fin : N) (cw_in cwait : bool)
            (ce : cend) (ut : utrig) (reply : str) (rseg1 whead : N) (ue : uend)
-           (conn : bool) (o_up o_cl : str) (o_ended o_eof : bool).
+           (conn : bool) (o_up o_cl : str) (o_ended o_eof : bool)
+(* the listener's timeouts on a tunnelled connection (tcp paths, through the real tcp.Server):
+   [rt]/[wt] = ReadTimeout / WriteTimeout of the listener in ns, [log] = every Read and Write the
+   server's wrapper issued on the scripted (inner) connection during a conversation that outlives
+   the timeouts, with the deadline of its direction in force when it was called (Model/ConnDeadline.v,
+   [dl_obs]; times in ns since the connection was made).  The streams of the same connection
+   come as a CTunnel case of their own. *)
+| CDeadlines (rt wt : N) (log : list dl_obs).
+
+Definition DL := Build_dl_obs.
 
 Definition agrees_obs (conn : bool) (o_up o_cl : str) (o_ended o_eof : bool) (e : expectation) : bool :=
   Bool.eqb conn (e_conn e)
@@ -133,4 +142,9 @@ Definition check_case (c : case) : N :=
                   spec region (e_conn e0 && (0 <? nlen' (e_up e0)))
       | _, _ => verdict false spec region true
       end
+  | CDeadlines rt wt log =>
+      (* specification: an operation is cut only if it had been waiting for the whole timeout
+         itself (dl_agrees_meets_spec: the model never breaks it) *)
+      verdict (dl_agrees rt wt fresh_conn log) (dl_spec rt wt log) None
+              ((0 <? rt) || (0 <? wt))
   end.
